@@ -26,10 +26,10 @@ ORIENTS = {
     'obl1': [1., 0., 0., 0., 0.8, -0.6],                 # 3-4-5 tilt about x
     'obl2': [0.6, 0.8, 0., 0., 0., -1.],                 # 3-4-5 rotation about z
 }
-# 1-2-2 double oblique: rows of an orthonormal rational matrix (float cosines are rounded, the
-# squared norm is 1 within 1e-16)
-_T = 1. / 3.
-ORIENTS['obl3'] = [2 * _T, 2 * _T, _T, -2 * _T, _T, 2 * _T]
+# 2-3-6 double oblique: rows of an orthonormal rational matrix (float cosines are rounded, the squared
+# norm is 1 within 1e-16); every row and the normal (6,2,-3)/7 have one strictly dominant component, so
+# nibabel's io_orientation is unambiguous
+ORIENTS['obl3'] = [2. / 7., 3. / 7., 6. / 7., 3. / 7., -6. / 7., 2. / 7.]
 
 GUESS_TAGS = ['EchoTime', 'InversionTime', 'RepetitionTime', 'FlipAngle', 'TriggerTime',
               'AcquisitionTime', 'ContentTime', 'AcquisitionNumber', 'InstanceNumber']
@@ -296,11 +296,15 @@ def run_history(dcmstack, case):
         absf.append(abstract_file(dcmstack, spec, r.dataset(i), case))
     ops = [r.apply(op) for op in case['ops']]
     vos = {}
-    if case['files']:
-        ref = r.dataset(0)
+    if r.accepted:
+        ref = r.dataset(r.accepted[0])          # the stack's reference input: its affine is known to be computable
         for op in case['ops']:
             if op[0] in ('nifti', 'wrapper') and op[1] not in vos:
                 vos[op[1]] = wants_flip(dcmstack, ref, op[1])
+    else:
+        for op in case['ops']:
+            if op[0] in ('nifti', 'wrapper'):
+                vos[op[1]] = None if not op[1] else False
     return r, {'files': absf, 'ops': ops, 'vo': vos, 'guesses': list(dcmstack.DicomStack.sort_guesses),
                'accepted': list(r.accepted)}
 
@@ -624,13 +628,17 @@ def apply_defect(rng, cfg, files, defect):
         d = 2.0 ** -16 if defect.endswith('lo') else 2.0 ** -12
         k = rng.randrange(2)
         f['ps'][k] = f['ps'][k] + rng.choice([d, -d])
-    elif defect in ('orient_lo', 'orient_hi'):
+    elif defect in ('orient_lo', 'orient_hi') and len(files) > 1 and (defect == 'orient_hi' or S >= 2):
+        # (orient_lo with S = 1 would give two files with identical ImagePositionPatient but slice indicators
+        #  1e-5 apart: a zero slice column, outside the modelled geometry)
         f = files[pick()]
         d = 2.0 ** -17 if defect.endswith('lo') else 2.0 ** -11
         k = rng.randrange(6)
         f['iop'][k] = f['iop'][k] + rng.choice([d, -d])
         if defect == 'orient_hi':
             f['notfirst'] = True
+    elif defect in ('orient_lo', 'orient_hi'):
+        pass
     elif defect == 'nopix':
         f = files[pick()]
         f['pix'] = False
@@ -664,7 +672,7 @@ def apply_defect(rng, cfg, files, defect):
             for f in files:
                 if f['cell'][1] == t and f['cell'][2] == v:
                     f['tags'][key] = tag_value(key, 1 + 2 * v2)
-                    if cfg['time_order'] is not None and cfg['tagrules'].get(cfg['time_order']['key']) in ('t', 'trev'):
+                    if cfg['time_order'] is not None and cfg['time_order']['abs'] is None and cfg['tagrules'].get(cfg['time_order']['key']) in ('t', 'trev'):
                         f['tags'][cfg['time_order']['key']] = tag_value(cfg['time_order']['key'], 40 + t)
     return renumber(files), note
 
